@@ -208,7 +208,12 @@ impl BlockScope {
         let binders = candidates.iter().try_fold(
             im::HashMap::<VarName, DefId>::new(),
             |binders, candidate| {
-                candidate.binder().binders(&resolver.bitter).into_iter().try_fold(
+                // The binder map has no stable iteration order; visit its names in source
+                // order so that the duplicate reported first does not vary between runs.
+                let mut contributed =
+                    candidate.binder().binders(&resolver.bitter).into_iter().collect::<Vec<_>>();
+                contributed.sort_by_key(|(_, definition)| definition.span(resolver).get_cursor1());
+                contributed.into_iter().try_fold(
                     binders,
                     |binders, (name, definition)| -> Result<_> {
                         if let Some(previous) = binders.get(&name) {
